@@ -33,8 +33,8 @@ Ev == Trace[l]
 Mark == TLCSet(1, IF TLCGet(1) > l + 1 THEN TLCGet(1) ELSE l + 1)
 Rng(s) == {s[i] : i \in DOMAIN s}
 
-NoRun == [mode |-> "none", shared |-> FALSE, clients |-> 0, inst |-> 0, entries |-> 0, timeout |-> 0, slow |-> <<>>]
-TraceInit == /\ l = 1 /\ TLCSet(1, 1) /\ InitWith([shared |-> FALSE, k |-> 1, refl |-> TRUE])
+NoRun == [mode |-> "none", shared |-> FALSE, clients |-> 0, inst |-> 0, entries |-> 0, timeout |-> 0, slow |-> <<>>, authority |-> ""]
+TraceInit == /\ l = 1 /\ TLCSet(1, 1) /\ InitWith([shared |-> FALSE, k |-> 1, refl |-> TRUE, tls |-> FALSE, ttls |-> FALSE, needmd |-> FALSE, rmd |-> FALSE])
              /\ run = NoRun /\ newguns = 0 /\ bound = {} /\ conns = {} /\ refl = {}
              /\ cur = [g \in Guns |-> ""] /\ gid = [g \in Guns |-> 0] /\ ended = 0
              /\ okAfterUp = 0 /\ shotsAfterDown = 0 /\ recovered = FALSE /\ wentDown = FALSE
@@ -44,8 +44,9 @@ AllIdle == \A g \in Guns : sh[g] = "idle"
 
 TRun == /\ Ev.ev = "Run" /\ AllIdle
         /\ run' = [mode |-> Ev.mode, shared |-> Ev.shared, clients |-> Ev.clients, inst |-> Ev.inst, entries |-> Ev.entries,
-                   timeout |-> Ev.timeout, slow |-> Ev.slow]
-        /\ cfg' = [shared |-> Ev.shared, k |-> Ev.clients, refl |-> Ev.mode # "dead"]
+                   timeout |-> Ev.timeout, slow |-> Ev.slow, authority |-> Ev.authority]
+        /\ cfg' = [shared |-> Ev.shared, k |-> Ev.clients, refl |-> Ev.mode # "dead",
+                   tls |-> Ev.tls, ttls |-> Ev.ttls, needmd |-> Ev.needmd, rmd |-> Ev.rmd]
         /\ phase' = "init" /\ tgt' = IF Ev.mode \in {"dead", "deadtarget"} THEN "down" ELSE "up"
         /\ sh' = [g \in Guns |-> "idle"] /\ gconn' = [g \in Guns |-> {}] /\ shots' = 0 /\ flips' = 0
         /\ newguns' = 0 /\ bound' = {} /\ conns' = {} /\ refl' = {}
@@ -60,10 +61,17 @@ TNewGun == /\ Ev.ev = "NewGun" /\ newguns' = newguns + 1
            /\ newguns = 0 \/ phase = "warm"
            /\ Same /\ UNCHANGED <<run, bound, conns, refl, cur, gid, ended, okAfterUp, shotsAfterDown, recovered, wentDown>>
 \* the reflection stream: WarmUp listing the methods (GrpcConn!WarmOK)
-TRefl == /\ Ev.ev = "ReflCall" /\ phase \in {"init", "warm"} /\ newguns = 1 /\ bound = {}
+\* reflect_metadata travels with every reflection stream (and only if configured); dial_options.authority is what the server sees
+TRefl == /\ Ev.ev = "ReflCall" /\ Ev.ok /\ phase \in {"init", "warm"} /\ newguns = 1 /\ bound = {}
+         /\ Configured
+         /\ Ev.reflmd = (IF cfg.rmd THEN "secret" ELSE "")
+         /\ run.authority # "" => Ev.authority = run.authority
          /\ phase' = "warm" /\ refl' = refl \cup {Ev.conn}
          /\ UNCHANGED <<cfg, tgt, clients, rr, cof, live, nconn, owner, sh, gconn, dead, shots, flips>>
          /\ UNCHANGED <<run, newguns, bound, conns, cur, gid, ended, okAfterUp, shotsAfterDown, recovered, wentDown>>
+\* a reflection stream without the credentials the endpoint needs is turned away: the warm-up does not succeed
+TReflDenied == /\ Ev.ev = "ReflCall" /\ ~Ev.ok /\ cfg.needmd /\ ~cfg.rmd /\ phase = "init" /\ Ev.reflmd = ""
+               /\ Same /\ UNCHANGED tx
 TBind == /\ Ev.ev = "Bind" /\ Ev.ok /\ phase = "warm" /\ Ev.gun \in Guns /\ Ev.gun \notin bound
          /\ bound' = bound \cup {Ev.gun}
          /\ Same /\ UNCHANGED <<run, newguns, conns, refl, cur, gid, ended, okAfterUp, shotsAfterDown, recovered, wentDown>>
@@ -82,6 +90,8 @@ TShootBegin == /\ Ev.ev = "ShootBegin" /\ Ev.gun \in bound /\ sh[Ev.gun] = "idle
 \* the call of the gun shooting that token arrives at the TARGET, while it is up, on an accepted connection (Arrive)
 TRecv == /\ Ev.ev = "Recv" /\ Ev.srv = "target" /\ tgt = "up" /\ Ev.conn \in conns /\ Ev.conn \notin refl
          /\ Len(Ev.toks) > 0
+         /\ ~Ev.reflmd                                               \* reflect_metadata is for reflection only
+         /\ run.authority # "" => Ev.authority = run.authority
          /\ \E g \in bound : /\ sh[g] = "call" /\ cur[g] = Ev.toks[1]
                              /\ sh' = [sh EXCEPT ![g] = "recv"]
                              /\ gconn' = [gconn EXCEPT ![g] = @ \cup {Ev.conn}]
@@ -121,14 +131,14 @@ TRecovered == /\ Ev.ev = "Recovered" /\ Ev.ok /\ recovered' = TRUE
               /\ Same /\ UNCHANGED <<run, newguns, bound, conns, refl, cur, gid, ended, okAfterUp, shotsAfterDown, wentDown>>
 \* how the run must end
 TRunEnd == /\ Ev.ev = "RunEnd" /\ AllIdle
-           /\ CASE run.mode = "dead"   -> Ev.class = "warmup" /\ bound = {} /\ shots = 0 /\ newguns = 1      \* WarmFail
+           /\ CASE ~Configured          -> Ev.class = "warmup" /\ bound = {} /\ shots = 0 /\ newguns = 1 /\ phase = "init"  \* WarmFail
                 [] run.mode = "updown" -> /\ Ev.class = "canceled" /\ recovered
                                           /\ shotsAfterDown > 0 /\ okAfterUp > 0 /\ Cardinality(bound) = run.inst
                 [] OTHER               -> Ev.class = "none" /\ ended = run.entries /\ Cardinality(bound) = run.inst
            /\ Same /\ UNCHANGED tx
 
 TraceNext == /\ l <= Len(Trace)
-             /\ (TRun \/ TNewGun \/ TRefl \/ TBind \/ TConnBegin \/ TStutter \/ TShootBegin \/ TRecv \/ TSample \/ TShootEnd
+             /\ (TRun \/ TNewGun \/ TRefl \/ TReflDenied \/ TBind \/ TConnBegin \/ TStutter \/ TShootBegin \/ TRecv \/ TSample \/ TShootEnd
                  \/ TStopping \/ TDown \/ TUp \/ TRecovered \/ TRunEnd)
              /\ l' = l + 1
              /\ Mark
